@@ -87,3 +87,129 @@ RECIPES = [
     ("C17", "neutral", [], BASE, "        if b.ndim == 1 or (b.ndim == 2 and ytools.isdiag(b)):\n            unc += 1\n        elif cd_as_force:",
      "        b_is_diag = b.ndim == 1 or (b.ndim == 2 and ytools.isdiag(b))\n        if b_is_diag:\n            unc += 1\n        elif cd_as_force:", "named test"),
 ]
+
+# ---- third pass: the rules run the public entry points (constructor -> def_nonlin -> tsolve / generator -> finalize) and decide on the
+# returned histories; every construct the interpreter learnt in this pass has a behaviour-preserving use (neutral) and a broken use (break)
+_NL_BODY = ("                    N = 0.0\n                    for key, (func, T, args) in self.nl_dct.items():\n                        z = func(D, j, h, **args)\n"
+            "                        self.z[key][:, j] = z\n                        N += T @ z\n                    return N")
+_GEN = ("                    def terms():\n                        for key, (func, T, args) in self.nl_dct.items():\n"
+        "                            z = func(D, j, h, **args)\n                            self.z[key][:, j] = z\n                            yield T @ z\n\n")
+_UNC_LOOP = ("                    for j in range(2, nt):\n                        D[:, j] = (\n                            F[:, j]\n                            + F[:, j - 1]\n"
+             "                            + F[:, j - 2]\n                            + A1 * D[:, j - 1]\n                            + A0 * D[:, j - 2]\n                        )\n")
+_LAZY = ("                    steps = (\n                        F[:, j] + F[:, j - 1] + F[:, j - 2] + A1 * D[:, j - 1] + A0 * D[:, j - 2]\n"
+         "                        for j in range(2, nt)\n                    )\n")
+_LOCAL_CLASS = ("                class _Solve:\n                    def __init__(self, fac):\n                        self.fac = fac\n\n"
+                "                    def __call__(self, rhs):\n                        return la.lu_solve(self.fac, rhs%s)\n\n                T = _Solve(self.Ad)(v[1])")
+_PROP_OLD = "        if self.nonlin_terms:\n            sol.z = self.z\n        return sol\n\n    def def_nonlin(self, dct):"
+_PROP_NEW = ("        if self._has_nl:\n            sol.z = self.z\n        return sol\n\n    @property\n    def _has_nl(self):\n        return self.nonlin_terms > %d\n\n"
+             "    def def_nonlin(self, dct):")
+
+RECIPES += [
+    # generator function (its body runs one yield at a time, interleaved with the consumer as in CPython)
+    ("C17", "neutral", [], NM, _NL_BODY, _GEN + "                    N = 0.0\n                    for t in terms():\n                        N += t\n                    return N",
+     "nonlinear terms produced by a local generator function"),
+    ("C17", "break", ["C17-R1", "C17-R2"], NM, _NL_BODY,
+     _GEN + "                    N = 0.0\n                    it = terms()\n                    next(it)\n                    for t in it:\n                        N += t\n                    return N",
+     "generator function: the first term is evaluated and recorded but not added"),
+    # lazy generator expression: every element must be computed after the previous one has been stored
+    ("C17", "neutral", [], NM, _UNC_LOOP, _LAZY + "                    for j, col in enumerate(steps, 2):\n                        D[:, j] = col\n",
+     "recurrence as a lazily consumed generator expression"),
+    ("C17", "break", ["C17-R1"], NM, _UNC_LOOP, _LAZY + "                    for j, col in enumerate(list(steps), 2):\n                        D[:, j] = col\n",
+     "generator expression consumed eagerly: every column is computed before any is stored"),
+    ("C17", "break", ["C17-R1", "C17-R2"], NM, _UNC_LOOP, _LAZY + "                    for j, col in enumerate(steps, 1):\n                        D[:, j] = col\n",
+     "enumerate started one column early"),
+    # starred assignment target
+    ("C17", "neutral", [], NM, "        d, v, a, F = self._init_dva(force, d0, v0)", "        *dva, F = self._init_dva(force, d0, v0)\n        d, v, a = dva", "starred unpacking of the start-up result"),
+    ("C17", "break", ["C17-R1", "C17-R2", "C17-R3"], NM, "        d, v, a, F = self._init_dva(force, d0, v0)", "        *dva, F = self._init_dva(force, d0, v0)\n        d, a, v = dva",
+     "starred unpacking with velocity and acceleration swapped"),
+    # the (lu, piv) pair of lu_factor taken apart and put together again
+    ("C17", "neutral", [], NM, "            self.A1 = la.lu_solve(self.Ad, A1, overwrite_b=True)", "            lu, piv = self.Ad\n            self.A1 = la.lu_solve((lu, piv), A1, overwrite_b=True)",
+     "lu_factor's result unpacked and re-packed"),
+    ("C17", "break", ["C17-R1", "C17-R2"], NM, "            self.A1 = la.lu_solve(self.Ad, A1, overwrite_b=True)",
+     "            lu, piv = self.Ad\n            piv0 = la.lu_factor(A0)[1]\n            self.A1 = la.lu_solve((lu, piv0), A1, overwrite_b=True)",
+     "factors of A used with the pivots of another matrix"),
+    # local class with __init__ / __call__
+    ("C17", "neutral", [], NM, "                T = la.lu_solve(self.Ad, v[1])", _LOCAL_CLASS % "", "solve wrapped in a local callable class"),
+    ("C17", "break", ["C17-R1", "C17-R2"], NM, "                T = la.lu_solve(self.Ad, v[1])", _LOCAL_CLASS % ", trans=1", "local callable class solving with the transposed matrix"),
+    # property
+    ("C17", "neutral", [], NM, _PROP_OLD, _PROP_NEW % 0, "test moved into a property"),
+    ("C17", "break", ["C17-R3"], NM, _PROP_OLD, _PROP_NEW % 2, "property with the wrong threshold: z is not returned for two terms"),
+    # getattr / setattr with literal and concatenated names
+    ("C17", "neutral", [], NM, "            sol.z = self.z\n", "            setattr(sol, \"z\", getattr(self, \"z\"))\n", "setattr / getattr with literal names"),
+    ("C17", "break", ["C17-R3"], NM, "            sol.z = self.z\n", "            setattr(sol, \"zz\", getattr(self, \"z\"))\n", "setattr under the wrong name"),
+    ("C17", "neutral", [], UNC, "        Bp = pc.Bp\n        D = d[kdof]", "        Bp = getattr(pc, \"B\" + \"p\")\n        D = d[kdof]", "attribute name built from parts"),
+    ("C17", "break", ["C17-R5"], UNC, "        Bp = pc.Bp\n        D = d[kdof]", "        Bp = getattr(pc, \"A\" + \"p\")\n        D = d[kdof]", "attribute name built from the wrong parts"),
+    # ufunc with out= on a view
+    ("C17", "neutral", [], UNC, "            V[:, i + 1] = vi = v_part - Bp * dmpfrc1\n            dmpfrc0 = dmpfrc1\n\n        if not self.slices:\n            d[kdof] = D",
+     "            np.subtract(v_part, Bp * dmpfrc1, out=V[:, i + 1])\n            vi = V[:, i + 1]\n            dmpfrc0 = dmpfrc1\n\n        if not self.slices:\n            d[kdof] = D",
+     "velocity update written through out= into the column"),
+    ("C17", "break", ["C17-R5"], UNC, "            V[:, i + 1] = vi = v_part - Bp * dmpfrc1\n            dmpfrc0 = dmpfrc1\n\n        if not self.slices:\n            d[kdof] = D",
+     "            np.subtract(v_part, Bp * dmpfrc1, out=V[:, i])\n            vi = V[:, i]\n            dmpfrc0 = dmpfrc1\n\n        if not self.slices:\n            d[kdof] = D",
+     "out= pointing at the current column"),
+    # walrus + next(it, sentinel) + for/else + try/finally
+    ("C17", "neutral", [], NM, "                    De = 3 * F[:, -1] + A1 @ D[:, -1] + A0 @ D[:, -2]",
+     "                    for _ in ():\n                        pass\n                    else:\n                        De = 3 * F[:, -1] + A1 @ D[:, -1] + A0 @ D[:, -2]",
+     "extra step in the else arm of an empty for"),
+    # representation of a private contract: the start-up step hands its result over as a record
+    ("C17", "neutral", [], BASE, "        return SimpleNamespace(d=d, v=v, a=a, h=self.h, t=t)", "        out = SimpleNamespace(d=d, v=v, a=a)\n        out.h, out.t = self.h, t\n        return out",
+     "solution record filled in two steps"),
+    # the public path runs through the base class: breaks there are breaks of the history
+    ("C17", "break", ["C17-R2"], BASE, "            d[self.nonrf, 0] = d0[self.nonrf]", "            d[self.nonrf, 0] = d0[self.rf]", "initial displacement taken from the rf rows"),
+    ("C17", "break", ["C17-R2", "C17-R6"], BASE, "        nonrf[rf] = False\n        nonrf = np.nonzero(nonrf)[0]", "        nonrf[rf] = False\n        nonrf = np.nonzero(nonrf)[0][::-1]", "non-rf partition reversed"),
+    ("C17", "break", ["C17-R4"], UNC, "            if self.cdforces:\n                generator = self._solve_real_unc_generator_cdforces(d, v, F0)", "            if not self.cdforces:\n                generator = self._solve_real_unc_generator_cdforces(d, v, F0)",
+     "damping-as-force generator chosen when cdforces is False"),
+]
+
+_NL_NONLOCAL = ("                    N = 0.0\n\n                    def add(term):\n                        nonlocal N\n                        N = %s\n\n"
+                "                    for key, (func, T, args) in self.nl_dct.items():\n                        z = func(D, j, h, **args)\n"
+                "                        self.z[key][:, j] = z\n                        add(T @ z)\n                    return N")
+_RET_OLD = "        a[self.nonrf, 0] = (d[self.nonrf, 1] - 2 * d0 + u_1) / (h * h)\n        return d, v, a, force"
+_RET_NT = ("        a[self.nonrf, 0] = (d[self.nonrf, 1] - 2 * d0 + u_1) / (h * h)\n        from collections import namedtuple\n\n"
+           "        Start = namedtuple(\"Start\", \"d v a force\")\n        return Start(%s)")
+_RET_CLS = ("        a[self.nonrf, 0] = (d[self.nonrf, 1] - 2 * d0 + u_1) / (h * h)\n        from typing import NamedTuple\n\n"
+            "        class Start(NamedTuple):\n            d: object\n            v: object\n            a: object\n            force: object\n\n        return Start(%s)")
+_SOL_OLD = "        return SimpleNamespace(d=d, v=v, a=a, h=self.h, t=t)"
+_SOL_DC = ("        from dataclasses import dataclass\n\n        @dataclass\n        class _Sol:\n            d: object\n            v: object\n            a: object\n"
+           "            h: object = None\n            t: object = None\n\n        return _Sol(%s, h=self.h, t=t)")
+_CPL_OLD = "                            + F[:, j - 2]\n                            + A1 @ D[:, j - 1]\n                            + A0 @ D[:, j - 2]\n"
+
+RECIPES += [
+    ("C17", "neutral", [], NM, _NL_BODY, _NL_NONLOCAL % "N + term", "nonlinear force accumulated through a nonlocal"),
+    ("C17", "break", ["C17-R1", "C17-R2"], NM, _NL_BODY, _NL_NONLOCAL % "term", "nonlocal accumulator overwritten instead of added to"),
+    ("C17", "neutral", [], NM, _RET_OLD, _RET_NT % "d, v, a, force", "start-up result as a namedtuple (local import)"),
+    ("C17", "break", ["C17-R2", "C17-R3"], NM, _RET_OLD, _RET_NT % "d, a, v, force", "namedtuple fields filled in the wrong order"),
+    ("C17", "neutral", [], NM, _RET_OLD, _RET_CLS % "d, v, a, force", "start-up result as a typing.NamedTuple class"),
+    ("C17", "break", ["C17-R2", "C17-R3"], NM, _RET_OLD, _RET_CLS % "v=v, d=d, force=force, a=v", "NamedTuple record with the velocity in the acceleration field"),
+    ("C17", "neutral", [], BASE, _SOL_OLD, _SOL_DC % "d=d, v=v, a=a", "solution record as a local dataclass"),
+    ("C17", "break", ["C17-R1", "C17-R2"], BASE, _SOL_OLD, _SOL_DC % "d=v, v=d, a=a", "dataclass record with d and v exchanged"),
+    ("C17", "neutral", [], NM, _CPL_OLD, "                            + F[:, j - 2]\n                            + np.einsum(\"ij,j->i\", A1, D[:, j - 1])\n                            + A0 @ D[:, j - 2]\n",
+     "matrix-vector product as einsum"),
+    ("C17", "break", ["C17-R1"], NM, _CPL_OLD, "                            + F[:, j - 2]\n                            + np.einsum(\"ji,j->i\", A1, D[:, j - 1])\n                            + A0 @ D[:, j - 2]\n",
+     "einsum with the transposed subscripts"),
+    ("C17", "neutral", [], NM, _CPL_OLD, "                            + F[:, j - 2]\n                            + np.hstack((A1, A0)) @ np.concatenate((D[:, j - 1], D[:, j - 2]))\n",
+     "the two products as one block product (exact-arithmetic equivalent)"),
+    ("C17", "break", ["C17-R1"], NM, _CPL_OLD, "                            + F[:, j - 2]\n                            + np.hstack((A1, A0)) @ np.concatenate((D[:, j - 2], D[:, j - 1]))\n",
+     "block product with the two displacement columns exchanged"),
+]
+
+_DIFF_OLD = "            V[:, 1:-1] = (D[:, 2:] - D[:, :-2]) / h2\n            V[:, -1] = (De - D[:, -2]) / h2\n"
+_DE_CPL = "                    De = 3 * F[:, -1] + A1 @ D[:, -1] + A0 @ D[:, -2]"
+_PARTIAL = ("                    from functools import partial\n                    from operator import matmul\n\n                    t1 = partial(matmul, %s)\n"
+            "                    De = 3 * F[:, -1] + t1(D[:, -1]) + A0 @ D[:, -2]")
+RECIPES += [
+    ("C17", "neutral", [], NM, _DIFF_OLD, "            ext = np.column_stack((D, De))\n            V[:, 1:] = (ext[:, 2:] - ext[:, :-2]) / h2\n",
+     "all velocities from one difference over the history extended by the extra step"),
+    ("C17", "break", ["C17-R1", "C17-R3"], NM, _DIFF_OLD, "            ext = np.column_stack((De, D))\n            V[:, 1:] = (ext[:, 2:] - ext[:, :-2]) / h2\n",
+     "extra step stacked in front of the history"),
+    ("C17", "neutral", [], NM, _DE_CPL, _PARTIAL % "A1", "product through functools.partial and operator.matmul (local imports)"),
+    ("C17", "break", ["C17-R1"], NM, _DE_CPL, _PARTIAL % "A0", "partial bound to the wrong coefficient matrix"),
+]
+
+RECIPES += [
+    ("C17", "neutral", [], BASE, "                    i = np.arange(bo.shape[0])\n                    bo[i, i] = 0.0  # off diagonal damping\n", "                    np.fill_diagonal(bo, 0.0)\n",
+     "np.fill_diagonal for the zero diagonal of C_od"),
+    ("C17", "break", ["C17-R4", "C17-R5"], BASE, "                    i = np.arange(bo.shape[0])\n                    bo[i, i] = 0.0  # off diagonal damping\n", "                    np.fill_diagonal(bo, 1.0)\n",
+     "C_od with a unit diagonal"),
+    ("C17", "neutral", [], BASE, "                bd = np.diag(b).copy()", "                bd = b.diagonal().copy()", "ndarray.diagonal for np.diag"),
+    ("C17", "break", ["C17-R4", "C17-R5"], BASE, "                bd = np.diag(b).copy()", "                bd = b[0].copy()", "first row of the damping taken for its diagonal"),
+]
